@@ -23,6 +23,7 @@ func init() {
 		Run: runC29,
 		Controls: []Control{
 			{Name: "drop-all-skipped-for-sources-believed-empty", File: "routingtable/mergedlocrib/mergedlocrib.go", Old: "\tfor h, rc := range rtm.routes {\n\t\trtm._delRoute(h, src, rc.route)\n\t}\n", New: "\tif src == nil {\n\t\treturn\n\t}\n\tfor h, rc := range rtm.routes {\n\t\trtm._delRoute(h, src, rc.route)\n\t}\n", Expect: "source-drop-visits-every-route"},
+			{Name: "removal-by-decision-equality", File: "route/route.go", Old: "\t\tif paths[j].Compare(remove) {\n", New: "\t\tif paths[j].Equal(remove) {\n", Expect: "decision-equality-is-not-identity"},
 			{Name: "source-kept-on-graceful-stop", File: "risclient/risclient.go", Old: "\tdefer r.processDownEvent()\n\n\tfor {\n\t\tif r.stopped() {\n\t\t\treturn nil\n\t\t}\n", New: "\tfor {\n\t\tif r.stopped() {\n\t\t\treturn nil\n\t\t}\n\t\tdefer r.processDownEvent()\n", Expect: "source-dropped-when-stream-ends"},
 			{Name: "remove-source-truncates-behind-the-gap", File: "routingtable/mergedlocrib/routecontainer.go", Old: "\trc.sources[i] = rc.sources[len(rc.sources)-1]\n\trc.sources = rc.sources[:len(rc.sources)-1]\n", New: "\trc.sources = append(rc.sources[:i], rc.sources[len(rc.sources)-1])\n", Expect: "source-removed-is-the-one-found"},
 			{Name: "refactor-remove-source-by-splice", Silent: true, File: "routingtable/mergedlocrib/routecontainer.go", Old: "\trc.sources[i] = rc.sources[len(rc.sources)-1]\n\trc.sources = rc.sources[:len(rc.sources)-1]\n", New: "\trc.sources = append(rc.sources[:i], rc.sources[i+1:]...)\n"},
@@ -66,6 +67,7 @@ func impliesNegative(op token.Token, k int64, truth bool) bool {
 }
 
 func runC29(c *core.Ctx) {
+	decisionEqualityIsNotIdentity(c, "decision-equality-is-not-identity")
 	p := c.P
 	sourceDroppedWhenStreamEnds(c)
 	mergedKeyAndDropAll(c)
